@@ -29,7 +29,8 @@ let trace_str l = match l with [] -> "-" | _ -> String.concat "," (List.map (fun
 let handle = function
   (* filter arg self ppid tree -> ok drop|pass trace *)
   | ["filter"; arg; self; ppid; tree] | ["filter"; arg; self; ppid; tree; _] | ["cfilter"; arg; self; ppid; tree; _]
-  | ["filter0"; arg; self; ppid; tree; _] | ["cfilter0"; arg; self; ppid; tree; _] ->
+  | ["filter0"; arg; self; ppid; tree; _] | ["cfilter0"; arg; self; ppid; tree; _]
+  | ["filterE"; arg; self; ppid; tree; _] | ["cfilterE"; arg; self; ppid; tree; _] ->
     (match filter_run sc (unhex arg) (z_of_string self) (z_of_string ppid) (parse_tree tree) with
      | (Ok v, tr) -> "ok\t" ^ (match v with DROP -> "drop" | PASS -> "pass") ^ "\t" ^ trace_str tr
      | (Fault f, _) -> "fault:" ^ fault_name f)
